@@ -199,9 +199,13 @@ func runProxy(t *testing.T, fx *fixtures, c verifCase, w *bufio.Writer) {
 				sched.mu.Unlock()
 			case "deploy":
 				svc, targets := str("svc"), decList(kv["targets"])
+				host := svc
+				if _, ok := kv["host"]; ok {
+					host = str("host")
+				}
 				ensure(targets)
 				runCmd(kv["c"], func() error {
-					return router.DeployService(svc, targets, ServiceOptions{Hosts: []string{svc + ".test"}}, topts, dur("dt"), dur("drt"))
+					return router.DeployService(svc, targets, ServiceOptions{Hosts: []string{host + ".test"}}, topts, dur("dt"), dur("drt"))
 				})
 			case "rollout-deploy":
 				svc, targets := str("svc"), decList(kv["targets"])
@@ -323,8 +327,12 @@ func genProxy(rng *mrand.Rand, n int, tier string, w *bufio.Writer) {
 			if rollout {
 				op = "rollout-deploy"
 			}
-			fmt.Fprintf(w, "%s c=%d svc=%s targets=%s dt=%d drt=%d\n", op, cid, hexB([]byte(svc)), encList(ts),
-				dur(pick(rng, []int64{2_100_000_000, 3_700_000_000})), dur(pick(rng, []int64{700_000_000, 1_300_000_000})))
+			host := ""
+			if !rollout && chance(rng, 15) {
+				host = " host=" + hexB([]byte(pick(rng, svcs))) // possibly another service's host: a conflict at install
+			}
+			fmt.Fprintf(w, "%s c=%d svc=%s targets=%s dt=%d drt=%d%s\n", op, cid, hexB([]byte(svc)), encList(ts),
+				dur(pick(rng, []int64{2_100_000_000, 3_700_000_000})), dur(pick(rng, []int64{700_000_000, 1_300_000_000})), host)
 		}
 		// initial deploy of s1 with well-behaved targets
 		{
